@@ -237,6 +237,10 @@ def cmdTgRender (args0 : List String) : String :=
     | some t, some k => (triluGraph x t (upper == "1") k).render | _, _ => "bad-op"
   | ["broadcast_arrays", t, n, i] => match parseNat? t, parseNat? n, parseNat? i with
     | some t, some n, some i => (broadcastArraysGraph ((List.range n).map TG.inp) t i).render | _, _, _ => "bad-op"
+  | ["cumsum_incl", t, axis, dt] =>
+    match parseNat? t, parseInt? axis, parseOptCode dt with
+    | some t, some ax, some dt => showOptTG (cumsumInclGraph x t dt ax)
+    | _, _, _ => "bad-op"
   | ["cumsum", t, axis, dt] =>
     match parseNat? t, parseInt? axis, parseOptCode dt with
     | some t, some ax, some dt => showOptTG (cumsumGraph x t dt ax)
